@@ -79,6 +79,7 @@ def strategy(tier):
 
     mx = 8 if tier == "quick" else 12
     return st.one_of(
+        G.gcc_problem(max_rows=12, zones=("P1", "P2")),
         nested_site(tier),
         G.problem(min_streams=3, max_streams=mx, shape="mixed"),
         G.problem(min_streams=2, max_streams=mx, shape="mixed", multi_zone=True),
